@@ -387,7 +387,10 @@ func ruleCutLocal(c *Ctx, r *Report) {
 		for i := 0; i < st.NumFields(); i++ {
 			f := st.Field(i)
 			key := tn + "." + f.Name()
-			if typeMentions(f.Type(), isProm, map[types.Type]bool{}) && !typeMentions(f.Type(), func(t types.Type) bool { _, ok := t.(*types.Signature); return ok }, map[types.Type]bool{}) {
+			if _, isFunc := f.Type().Underlying().(*types.Signature); isFunc {
+				continue // callback fields: their parameter types are not state
+			}
+			if typeMentions(f.Type(), isProm, map[types.Type]bool{nil: true}) {
 				r.bad(rule, key, c.Pos(f.Pos()), desc, "a field of "+tn+" can hold a *Promise: the barrier could be shared between calls")
 			}
 		}
